@@ -1,6 +1,7 @@
 import Proofs.Lemmas.Solver
 import Proofs.Lemmas.SolverOutcome
 import FsicModel.Generated
+import Proofs.Lemmas.SolverSound
 /-
 C05 — solve() equals the ordered sequence of single-period solves; failures are contained.
 
@@ -282,6 +283,66 @@ theorem solve_history_irrelevant (lags leads : Nat) (start stop : Option Loc) (u
             | error r => exact ⟨rfl, rfl⟩
             | ok e => exact solveList_history_irrelevant I o n _ u st st' it it' [] []
 
+/-! ### The returned flags are the recorded statuses -/
+
+theorem pyIndex_nat (p : Nat) (h : p < n) : pyIndex n (p : Int) = some p := by
+  unfold pyIndex
+  have h0 : (0 : Int) ≤ (p : Int) := Int.natCast_nonneg p
+  have h1 : ((p : Nat) : Int) < (n : Int) := by exact_mod_cast h
+  simp [h0, h1]
+
+/-- A single-period solve that returns records '.' at its period exactly when it returns `True`. -/
+theorem solveT_flag_status (p : Nat) (hp : p < n) (w : World σ) (hlen : w.status.length = n) (b : Bool)
+    (h : (solveT I o n (p : Int) w).2 = .ret b) :
+    (solveT I o n (p : Int) w).1.status[p]? = some .solved ↔ b = true := by
+  obtain ⟨u2, _, hf⟩ := solveT_ret I o n (p : Int) w (solveT I o n (p : Int) w).1 b (Prod.ext rfl h)
+  obtain ⟨u, s, k, _, hw, hb, _⟩ := finish_ret o n (p : Int) w _ _ b hf
+  rw [hw]
+  simp only [stamp, pyIndex_nat n p hp, withUser]
+  rw [setAt_getElem?_eq _ _ _ (by rw [hlen]; exact hp), hb]
+  simp
+
+/-- **The flags returned by `solve()` are the statuses it recorded.**  When no period raises, the `i`-th flag is
+    `True` exactly when the status recorded at the `i`-th solved period is '.', for every list of distinct periods
+    inside the span (in particular the default range and any `start … end`). -/
+theorem solve_flags_match_statuses (ps : List Nat) (w : World σ) (hlen : w.status.length = n)
+    (hnd : ps.Nodup) (hps : ∀ p ∈ ps, p < n) (hall : AllReturn I o n ps w) :
+    ∀ (i : Nat) (hi : i < ps.length),
+      (seqWorld I o n ps w).status[ps[i]]? = some .solved ↔ (seqFlags I o n ps w)[i]? = some true := by
+  induction ps generalizing w with
+  | nil => intro i hi; simp at hi
+  | cons p ps ih =>
+    obtain ⟨⟨b, hb⟩, hrest⟩ := hall
+    have hp : p < n := hps p (by simp)
+    have hnd' := List.nodup_cons.mp hnd
+    have hl := solveT_lengths I o n (p : Int) w
+    have hlen1 : (solveT I o n (p : Int) w).1.status.length = n := by rw [hl.1]; exact hlen
+    intro i hi
+    cases i with
+    | zero =>
+      simp only [List.getElem_cons_zero, seqWorld, seqFlags, List.getElem?_cons_zero, Option.some.injEq]
+      have hu := later_periods_untouched I o n ps (solveT I o n (p : Int) w).1 p hlen1
+        (fun q hq e => hnd'.1 (e ▸ hq)) (fun q hq => hps q (by simp [hq]))
+      rw [hu.1, solveT_flag_status I o n p hp w hlen b hb, hb]
+      cases b <;> simp
+    | succ i =>
+      simp only [List.getElem_cons_succ, seqWorld, seqFlags, List.getElem?_cons_succ]
+      exact ih _ hlen1 hnd'.2 (fun q hq => hps q (by simp [hq])) hrest i (by simpa using hi)
+
+theorem seqFlags_length (ps : List Nat) (w : World σ) : (seqFlags I o n ps w).length = ps.length := by
+  induction ps generalizing w with
+  | nil => rfl
+  | cons p ps ih => simp [seqFlags, ih]
+
+/-- …stated on what `solve()` returns: the period loop over distinct in-span periods none of which raises returns
+    those periods with one flag each, and flag `i` is `True` iff the status left at period `i` is '.'. -/
+theorem solveList_flags_match (ps : List Nat) (w : World σ) (hlen : w.status.length = n)
+    (hnd : ps.Nodup) (hps : ∀ p ∈ ps, p < n) (hall : AllReturn I o n ps w) :
+    ∃ (w' : World σ) (fs : List Bool), solveList I o n ps w [] [] = (w', .ok ps fs) ∧ fs.length = ps.length ∧
+      ∀ (i : Nat) (hi : i < ps.length), w'.status[ps[i]]? = some .solved ↔ fs[i]? = some true :=
+  ⟨seqWorld I o n ps w, seqFlags I o n ps w, by simpa using solveList_eq_seq I o n ps w [] [] hall,
+   seqFlags_length I o n ps w, solve_flags_match_statuses I o n ps w hlen hnd hps hall⟩
+
 /-! ### Non-vacuity (review): every hypothesis-carrying theorem instantiated on `exI` (4 periods; period 2 fails) -/
 
 private def exW : World Nat := ⟨0, List.replicate 4 .unsolved, List.replicate 4 (-1)⟩
@@ -327,5 +388,14 @@ example : solve exI { maxIter := 3 } 4 1 0 (some (.pos 1)) (some (.pos 2)) exW =
 example : solve exI { maxIter := 3 } 4 1 0 none none exW =
     solveList exI { maxIter := 3 } 4 (periodRange 1 (4 - 1 - 0)) exW [] [] :=
   solve_default_range exI _ 4 1 0 exW (by decide) (by decide) (by decide)
+
+/-- `solve_flags_match_statuses` / `solveList_flags_match` on the run above (periods 1, 2, 3; period 2 fails):
+    flags `[true, false, true]`, statuses '.', 'F', '.'. -/
+example : ∀ (i : Nat) (hi : i < [1, 2, 3].length),
+    (seqWorld exI { maxIter := 3, failRaise := false } 4 [1, 2, 3] exW).status[[1, 2, 3][i]]? = some .solved ↔
+      (seqFlags exI { maxIter := 3, failRaise := false } 4 [1, 2, 3] exW)[i]? = some true :=
+  solve_flags_match_statuses exI _ 4 [1, 2, 3] exW (by decide) (by decide) (by decide) exAll
+example : (seqWorld exI { maxIter := 3, failRaise := false } 4 [1, 2, 3] exW).status =
+    [.unsolved, .solved, .failed, .solved] := by decide
 
 end Fsic.C05
